@@ -11,6 +11,7 @@ pub mod c11;
 pub mod c12;
 pub mod c13;
 pub mod c14;
+pub mod c15;
 pub mod c19;
 
 use crate::engine::Runner;
@@ -32,6 +33,7 @@ pub fn run(id: &str, r: &mut Runner) {
         "C12" => c12::run(r),
         "C13" => c13::run(r),
         "C14" => c14::run(r),
+        "C15" => c15::run(r),
         "C19" => c19::run(r),
         _ => {
             println!("HARNESS-ERROR property {id} has no check yet");
